@@ -88,7 +88,10 @@ BREAKING = [
     ('c03-eval-after-advance', ['C03', 'C08'], [(A, "        imm = eval_immediate(item, position, env)", "        imm = eval_immediate(item, position + item.size(), env)")]),
     ('c03-rebind-labels', ['C03'], [(A, "def resolve_aligns(items, labels):\n    position = 0", "def resolve_aligns(items, labels):\n    labels = dict(labels)\n    position = 0")]),
     ('c03-near-call-lo', ['C03', 'C05', 'C07'], [(A, "inst = JTypeInstruction(item.line, 'jal', rd='x1', imm=imm)", "inst = JTypeInstruction(item.line, 'jal', rd='x1', imm=Lo(imm))", 1)]),
-    ('c03-pred-raw-eval', ['C03', 'C04'], [(A, "            imm = eval_immediate(i, p, e)\n            return imm == value", "            imm = i.imm.eval(p, e, i.line)\n            return imm == value")]),
+    # (since fix 075cc1d ImmEquals no longer goes through eval_immediate; the predicate that decides c.jr / c.jalr evaluating
+    #  against the live label table again is the reverse of that fix)
+    ('c03-pred-raw-eval', ['C03', 'C04'], [(A, "            if not isinstance(i.imm, Arithmetic):\n                return False\n            try:\n                imm = i.imm.eval(p, constants, i.line)\n            except AssemblerError:\n                return False\n            return imm == value",
+                                             "            imm = i.imm.eval(p, e, i.line)\n            return imm == value")]),
     ('c03-auipc-post-adjust', ['C03'], [(A, "    if getattr(item, 'is_auipc_jump', False):\n        position = position - 4\n    return item.imm.eval(position, env, item.line)", "    value = item.imm.eval(position, env, item.line)\n    if getattr(item, 'is_auipc_jump', False):\n        value = value + 4\n    return value")]),
     ('c03-auipc-wrong-origin', ['C03'], [(A, "        position = position - 4\n    return item.imm.eval", "        position = position - 2\n    return item.imm.eval")]),
     ('c03-aligns-late', ['C03', 'C08'], [(A, "    items = resolve_aligns(items, labels)\n    items = resolve_immediates(items, constants, labels)", "    items = resolve_immediates(items, constants, labels)\n    items = resolve_aligns(items, labels)")]),
@@ -653,4 +656,38 @@ UNDECIDED += [
     ('u-parse-reflective-class', ['C01'], [(A, "        return UTypeInstruction(line, name, rd, imm)", "        return globals()['UTypeInstruction'](line, name, rd, imm)")]),
     # the packed value is derived from, not equal to, the encoder's result: value ranges are outside the pack rule
     ('u-pack-masked-word', ['C01'], [(A, "        code = struct.pack(fmt, code)\n        blob = Blob(item.line, code)", "        code = struct.pack(fmt, code & 0xffffffff)\n        blob = Blob(item.line, code)")]),
+]
+
+
+# -- round 2 (engine generalisations): local closures with nonlocal state, early continue, criteria extended by a loop over a
+#    literal tuple, negated-predicate factories, the xor sign-extension idiom and the rounding shift in relocate_hi ------------------
+_TC_PRELUDE = "    # used for imm evaluation\n    env = ChainMap(constants, labels)\n\n    position = 0\n    new_items = []\n    for item in items:\n        # skip non-instructions and pseudo-instructions\n        if not isinstance(item, Instruction) or isinstance(item, PseudoInstruction):\n            position += item.size()\n            new_items.append(item)\n            continue\n"
+_TC_EMIT = "    # used for imm evaluation\n    env = ChainMap(constants, labels)\n\n    position = 0\n    new_items = []\n\n    def emit(new_item):\n        nonlocal position\n        position += new_item.size()\n        new_items.append(new_item)\n\n    for item in items:\n        # skip non-instructions and pseudo-instructions\n        if not isinstance(item, Instruction) or isinstance(item, PseudoInstruction):\n            emit(item)\n            continue\n"
+_TC_TAIL = "            # add compressed inst to items and break the search loop\n            position += inst.size()\n            new_items.append(inst)\n"
+_TC_ELSE = "        else:\n            position += item.size()\n            new_items.append(item)\n\n    return new_items\n\n\ndef transform_pseudo_instructions"
+PRESERVING += [
+    ('p2-emit-closure', None, [(A, _TC_PRELUDE, _TC_EMIT), (A, _TC_TAIL, "            # add compressed inst to items and break the search loop\n            emit(inst)\n"),
+                               (A, _TC_ELSE, "        else:\n            emit(item)\n\n    return new_items\n\n\ndef transform_pseudo_instructions")]),
+    ('p2-sign-extend-xor', None, [(A, "def sign_extend(value, bits):\n", "def sign_extend(value, bits):\n    sign_bit = 1 << (bits - 1)\n    return ((value & ((sign_bit << 1) - 1)) ^ sign_bit) - sign_bit\n\n\ndef sign_extend_old(value, bits):\n")]),
+]
+BREAKING += [
+    # the closure advances the offset by the size of the *original* item while a (smaller) compressed one is emitted
+    ('c2-emit-closure-stale-size', ['C03', 'C08', 'C09'], [(A, _TC_PRELUDE, _TC_EMIT.replace("position += new_item.size()", "position += item.size()").replace("def emit(new_item):", "def emit(new_item, item=None):\n        item = item or new_item")),
+                                                          (A, _TC_TAIL, "            # add compressed inst to items and break the search loop\n            emit(inst, item)\n"),
+                                                          (A, _TC_ELSE, "        else:\n            emit(item)\n\n    return new_items\n\n\ndef transform_pseudo_instructions")]),
+    # xor idiom with the sign bit one position too high: values with bit (bits-1) set are no longer negative
+    ('c2-sign-extend-xor-wrong-bit', ['C07'], [(A, "def sign_extend(value, bits):\n", "def sign_extend(value, bits):\n    sign_bit = 1 << bits\n    return ((value & ((sign_bit << 1) - 1)) ^ sign_bit) - sign_bit\n\n\ndef sign_extend_old(value, bits):\n")]),
+]
+
+
+# after fix 075cc1d no compression rule for jalr looks at a label-dependent immediate any more: a predicate that only serves
+# addi / lui rules may evaluate the immediate directly (those items never carry is_auipc_jump)
+PRESERVING += [
+    ('p3-pred-raw-eval-notequals', None, [(A, "            imm = eval_immediate(i, p, e)\n            return imm != value", "            imm = i.imm.eval(p, e, i.line)\n            return imm != value")]),
+]
+BREAKING += [
+    # ... but the predicate that selects c.jr / c.jalr must not: without the Arithmetic guard a %lo immediate is judged again
+    ('c3-immequals-no-arith-guard', ['C03', 'C04'], [(A, "            if not isinstance(i.imm, Arithmetic):\n                return False\n            try:\n                imm = i.imm.eval(p, constants, i.line)",
+                                                     "            try:\n                imm = i.imm.eval(p, ChainMap(constants, labels), i.line)")]),
+    ('c3-immequals-live-env', ['C03', 'C04'], [(A, "                imm = i.imm.eval(p, constants, i.line)\n            except AssemblerError:", "                imm = i.imm.eval(p, e, i.line)\n            except AssemblerError:")]),
 ]
